@@ -53,6 +53,9 @@ func simple(name string, pb int, body func(x *vrt.Exec)) *explore.Scenario {
 		if s, ok := x.Data.(string); ok && strings.HasPrefix(s, "vacuous") {
 			return []explore.Finding{{Kind: "scenario-vacuous", Site: name, Detail: s}}
 		}
+		if s, ok := x.Data.(string); ok && strings.HasPrefix(s, "changed") {
+			return []explore.Finding{{Kind: "payload-changed-during-callback", Site: name, Detail: s}}
+		}
 		return nil
 	}
 	return sc
@@ -63,13 +66,46 @@ var t0 = time.Unix(1_700_000_000, 0)
 func extraScenarios(pb int) []*explore.Scenario {
 	var out []*explore.Scenario
 	// kademlia cache: concurrent Put / Get / Count / IsFull / Expire / ForEach
-	out = append(out, simple("kademlia-cache-concurrent", pb, func(x *vrt.Exec) {
-		c := kademlia.NewCache[int]([]byte{0}, 2, 0)
-		vrt.Go("put", func() { c.Put([]byte{0x80}, 1, t0, t0.Add(time.Second)); c.Put([]byte{0x40}, 2, t0, time.Time{}) })
-		vrt.Go("put2", func() { c.Put([]byte{0x20}, 3, t0, time.Time{}) })
-		vrt.Go("read", func() { c.Get([]byte{0x80}, t0); c.Count(); c.IsFull(); c.Closest([]byte{0x01}) })
-		vrt.Go("expire", func() { c.Expire(nil, t0.Add(2*time.Second)); c.Delete([]byte{0x40}) })
-	}))
+	{
+		// kademlia cache: concurrent Put / Update / Get / Count / IsFull / Expire / Delete and two
+		// nearest-first readers; afterwards the cache must still be a faithful bounded map
+		// (Count equals what it holds, never more than its capacity)
+		type audit struct{ count, held int }
+		sc := simple("kademlia-cache-concurrent", pb, func(x *vrt.Exec) {
+			c := kademlia.NewCache[int]([]byte{0}, 2, 0)
+			var wg vsync.WaitGroup // orders the audit after the workers for the race detector as well
+			spawn := func(name string, fn func()) {
+				wg.Add(1)
+				vrt.Go(name, func() { defer wg.Done(); fn() })
+			}
+			spawn("put", func() { c.Put([]byte{0x80}, 1, t0, t0.Add(time.Second)); c.Put([]byte{0x40}, 2, t0, time.Time{}) })
+			spawn("put2", func() { c.Put([]byte{0x20}, 3, t0, time.Time{}); c.Put([]byte{0x80}, 4, t0, t0.Add(time.Second)) })
+			spawn("read", func() {
+				c.Get([]byte{0x80}, t0)
+				c.Count()
+				c.IsFull()
+				c.Closest([]byte{0x01})
+				c.ForEach([]byte{0x80}, func(kademlia.Entry[int]) bool { return true })
+			})
+			spawn("read2", func() { c.ForEach([]byte{0xc0}, func(kademlia.Entry[int]) bool { return true }) })
+			spawn("expire", func() { c.Expire(nil, t0.Add(2*time.Second)); c.Delete([]byte{0x40}) })
+			vrt.Go("audit", func() {
+				wg.Wait()
+				a := audit{count: c.Count()}
+				c.ForEach([]byte{0}, func(kademlia.Entry[int]) bool { a.held++; return true })
+				x.Data = a
+			})
+		})
+		inner := sc.Check
+		sc.Check = func(x *vrt.Exec) []explore.Finding {
+			fs := inner(x)
+			if a, ok := x.Data.(audit); ok && len(fs) == 0 && (a.count != a.held || a.held > 2) {
+				fs = append(fs, explore.Finding{Kind: "cache-count-drifted", Site: "kademlia.Cache", Detail: fmt.Sprintf("after concurrent Put/Expire/Delete: Count()=%d, the cache holds %d entries, capacity 2", a.count, a.held)})
+			}
+			return fs
+		}
+		out = append(out, sc)
+	}
 	out = append(out, simple("kademlia-dhtnode-concurrent", pb, func(x *vrt.Exec) {
 		n := kademlia.NewDHTNode(kademlia.DHTNodeParams{LocalID: p2p.PeerID{1}, PeerCacheSize: 300, DataCacheSize: 4})
 		vrt.Go("add", func() { n.AddPeer(p2p.PeerID{0x80}, []byte("a")); n.AddPeer(p2p.PeerID{0x40}, []byte("b")) })
@@ -93,12 +129,28 @@ func extraScenarios(pb int) []*explore.Scenario {
 			vrt.Go("deliver", func() {
 				buf := []byte{byte(i), 1, 2}
 				h.Deliver(ctx, p2p.Message[Addr]{Src: Addr{N: i}, Payload: buf})
-				buf[0] = 0xEE
+				// Deliver returned: the buffer is the deliverer's again
+				for k := range buf {
+					buf[k] = 0xEE
+				}
 			})
 		}
 		for i := 0; i < 2; i++ {
+			i := i
 			vrt.Go("receive", func() {
-				h.Receive(ctx, func(m p2p.Message[Addr]) { m.Payload[1] = 9 })
+				h.Receive(ctx, func(m p2p.Message[Addr]) {
+					// callbacks of different durations that use the whole message: until the
+					// callback returns the message must not change (the deliverer scribbles
+					// over its buffer as soon as Deliver has returned)
+					first := string(m.Payload)
+					if i == 0 {
+						vrt.PointAlways("slow callback")
+						vrt.PointAlways("slow callback")
+					}
+					if string(m.Payload) != first {
+						x.Data = fmt.Sprintf("changed: the message read %x when the callback started and %x before it returned", first, m.Payload)
+					}
+				})
 			})
 		}
 		vrt.Go("closer", func() { vrt.PointAlways("close"); h.CloseWithError(nil); cf() })
